@@ -130,19 +130,20 @@ type sessJob struct {
 // ---------- model-level message record (field names are the TLA+ record fields)
 
 type mmsg struct {
-	From  string `json:"from"`
-	Kind  string `json:"kind"`
-	Src   string `json:"src"`
-	Dst   string `json:"dst"`
-	Tid   int    `json:"tid"`
-	UC    bool   `json:"uc"`
-	RoleA string `json:"rolea"`
-	User  [2]int `json:"user"`
-	Key   [2]any `json:"key"`
-	Prio  int    `json:"prio"`
-	Tbc   int    `json:"tbc"`
-	Copy  int    `json:"copy"`
-	Nom   int    `json:"nom"`
+	From   string `json:"from"`
+	Kind   string `json:"kind"`
+	Src    string `json:"src"`
+	Dst    string `json:"dst"`
+	Tid    int    `json:"tid"`
+	UC     bool   `json:"uc"`
+	RoleA  string `json:"rolea"`
+	User   [2]int `json:"user"`
+	UShape int    `json:"ushape"` // how a negative user entry distorts the ufrag
+	Key    [2]any `json:"key"`
+	Prio   int    `json:"prio"`
+	Tbc    int    `json:"tbc"`
+	Copy   int    `json:"copy"`
+	Nom    int    `json:"nom"`
 }
 
 // dgram is an application-data datagram on the simulated wire (model record + bytes).
@@ -774,8 +775,11 @@ func runSession(t *testing.T, cfg *sessCfg, job *sessJob, rng *mrand.Rand, sched
 			mm.Tid = S[b].tids[x.Tid]
 			raw = S[b].raw[mm.Tid]
 		}
-		users := [][2]int{{S[b].gen, S[b].rgen}, {S[b].gen, 0}, {0, S[b].rgen}}
-		mm.User = users[rng.Intn(3)]
+		// a negative generation: a string built from that generation's ufrag that is not the ufrag (longer, shorter, an extra
+		// segment, a prefix in front) - the USERNAME resembles the right one without being it; both negative: the halves swapped
+		users := [][2]int{{S[b].gen, S[b].rgen}, {S[b].gen, 0}, {0, S[b].rgen}, {-S[b].gen, S[b].rgen}, {S[b].gen, -S[b].rgen}, {-S[b].gen, -S[b].rgen}}
+		mm.User = users[rng.Intn(len(users))]
+		mm.UShape = 1 + rng.Intn(4)
 		keys := [][2]any{{b, S[b].gen}, {peer, S[b].rgen}, {peer, 0}, {"X", 0}}
 		mm.Key = keys[rng.Intn(4)]
 		if mm.Kind == "other" && len(ps.Pend) > 0 && rng.Intn(2) == 0 {
@@ -800,6 +804,9 @@ func runSession(t *testing.T, cfg *sessCfg, job *sessJob, rng *mrand.Rand, sched
 			if u, ok := want["user"].([]any); ok && len(u) == 2 {
 				mm.User = [2]int{int(u[0].(float64)), int(u[1].(float64))} //nolint:forcetypeassert
 			}
+			if v, ok := want["ushape"].(float64); ok {
+				mm.UShape = int(v)
+			}
 			if k, ok := want["key"].([]any); ok && len(k) == 2 {
 				mm.Key = [2]any{k[0], int(k[1].(float64))} //nolint:forcetypeassert
 			}
@@ -814,7 +821,29 @@ func runSession(t *testing.T, cfg *sessCfg, job *sessJob, rng *mrand.Rand, sched
 				return "bogus"
 			}
 
+			if g < 0 {
+				u := S[agent].ufrag[-g]
+				switch mm.UShape {
+				case 1:
+					return u + "x"
+				case 2:
+					return u[:len(u)-1]
+				case 3:
+					if agent == b {
+						return u + ":zz" // <local>:zz:<remote>
+					}
+
+					return "zz:" + u
+				default:
+					return "x" + u
+				}
+			}
+
 			return S[agent].ufrag[g]
+		}
+		username := uf(b, mm.User[0], false) + ":" + uf(peer, mm.User[1], true)
+		if mm.User[0] < 0 && mm.User[1] < 0 {
+			username = S[peer].ufrag[-mm.User[1]] + ":" + S[b].ufrag[-mm.User[0]]
 		}
 		pw := "garbagegarbagegarbagegarbage"
 		if k, _ := mm.Key[0].(string); k != "X" {
@@ -835,7 +864,7 @@ func runSession(t *testing.T, cfg *sessCfg, job *sessJob, rng *mrand.Rand, sched
 		}
 		setters := []stun.Setter{
 			stun.NewType(meth, cls), stun.NewTransactionIDSetter(raw),
-			stun.NewUsername(uf(b, mm.User[0], false) + ":" + uf(peer, mm.User[1], true)),
+			stun.NewUsername(username),
 		}
 		if mm.UC {
 			setters = append(setters, ice.UseCandidate())
